@@ -384,7 +384,23 @@ func batch(t *testing.T, p *Prop, outPath string) {
 			res.Skipped++
 			continue
 		}
-		o := safeRun(p, t, c, false)
+		traceAll := os.Getenv("VERIF_TRACE_ALL") != ""
+		o := safeRun(p, t, c, traceAll)
+		if traceAll {
+			// debugging aid: the trace of the run as it happened inside the batch
+			if o.V != nil || o.Infra != "" {
+				b, _ := json.Marshal(c)
+				fmt.Printf("BATCH idx=%d V=%v infra=%q\nCASE %s\n", idx, o.V, o.Infra, b)
+				tr := o.Trace
+				if len(tr) > 400 {
+					tr = tr[len(tr)-400:]
+				}
+				for _, l := range tr {
+					fmt.Println(l)
+				}
+			}
+			o.Trace = nil
+		}
 		if !record(idx, seed, c, o) {
 			break
 		}
@@ -430,7 +446,7 @@ type ReplayResult struct {
 
 func replay(t *testing.T, p *Prop, file, outPath string) {
 	fv, c := loadFound(t, p, file)
-	o := safeRun(p, t, c, true)
+	o := safeRun(p, t, c, os.Getenv("VERIF_NOTRACE") == "")
 	rr := &ReplayResult{LogHash: o.LogHash, Infra: o.Infra, Violation: o.V}
 	if o.V != nil && o.V.Signature == fv.Violation.Signature {
 		rr.Reproduced = true
